@@ -36,6 +36,10 @@ partial def pMany {α : Type} (p : P α) : Nat → P (List α)
     let (xs, ts) ← pMany p n ts
     pure (x :: xs, ts)
 
+def scalOf : String → Option Scal
+  | "int" => some .int | "float" => some .float | "complex" => some .complex | "str" => some .str
+  | "bytes" => some .bytes | "bool" => some .bool | "none" => some .none | _ => none
+
 partial def pAnn : P Ann
   | [] => none
   | t :: ts =>
@@ -51,6 +55,12 @@ partial def pAnn : P Ann
           match t with
           | "cls" => do let (k, ts) ← pNat ts; pure (.cls k, ts)
           | "typec" => do let (k, ts) ← pNat ts; pure (.typeC k, ts)
+          | "typeu" => do
+            let (n, ts) ← pNat ts
+            let (ks, ts) ← pMany pNat n ts
+            let (m, ts) ← pNat ts
+            let (bs, ts) ← pMany (fun ts => match ts with | t :: ts => (scalOf t).map (·, ts) | [] => none) m ts
+            pure (.typeU ks bs, ts)
           | "opt" => do let (a, ts) ← pAnn ts; pure (.opt a, ts)
           | "union" => do let (n, ts) ← pNat ts; let (as, ts) ← pMany pAnn n ts; pure (.union as, ts)
           | "tup" => do let (n, ts) ← pNat ts; let (as, ts) ← pMany pAnn n ts; pure (.tup as, ts)
